@@ -4,6 +4,7 @@ package gosym
 
 import (
 	"go/token"
+	"time"
 
 	"golang.org/x/tools/go/ssa"
 )
@@ -176,11 +177,54 @@ func parseLayout(layout string) []layoutTok {
 
 func hasPrefix(s, p string) bool { return len(s) >= len(p) && s[:len(p)] == p }
 
+// extremeConstDate: all fields concrete and the year outside 0..9999: the natively normalised value.
+func (e *Engine) extremeConstDate(t TimeV) (TimeV, bool) {
+	if e.opt.Zone == 2 {
+		return t, false
+	}
+	for _, x := range []*Term{t.Y, t.M, t.D, t.H, t.Mi, t.S, t.Ns} {
+		if x == nil || !x.IsConst() {
+			return t, false
+		}
+	}
+	y := t.Y.SVal()
+	if (y >= 0 && y <= 9999) || y < -200000 || y > 200000 {
+		return t, false
+	}
+	nt := time.Date(int(y), time.Month(t.M.SVal()), int(t.D.SVal()), int(t.H.SVal()), int(t.Mi.SVal()), int(t.S.SVal()), int(t.Ns.SVal()), time.UTC)
+	if ny := nt.Year(); ny >= 0 && ny <= 9999 {
+		return t, false
+	}
+	out := t
+	out.Y, out.M, out.D = e.bv64(int64(nt.Year())), e.bv64(int64(nt.Month())), e.bv64(int64(nt.Day()))
+	out.H, out.Mi, out.S, out.Ns = e.bv64(int64(nt.Hour())), e.bv64(int64(nt.Minute())), e.bv64(int64(nt.Second())), e.bv64(int64(nt.Nanosecond()))
+	e.stubsUsed["concrete dates with a year outside 0..9999: normalised and formatted natively"] = true
+	return out, true
+}
+
 func (e *Engine) timeFormat(st *State, t TimeV, layout string) StrV {
 	c := e.tc
 	toks := parseLayout(layout)
 	if toks == nil {
 		return StrV{Opaque: true, Note: "time layout " + layout}
+	}
+	if t.Inst == nil && t.Y != nil && t.Y.IsConst() && (t.Y.SVal() < 0 || t.Y.SVal() > 9999) {
+		conc, zone := true, false
+		for _, x := range []*Term{t.M, t.D, t.H, t.Mi, t.S, t.Ns} {
+			if !x.IsConst() {
+				conc = false
+			}
+		}
+		for _, tk := range toks {
+			if tk.kind == "MST" {
+				zone = true
+			}
+		}
+		if conc && !zone {
+			nt := time.Date(int(t.Y.SVal()), time.Month(t.M.SVal()), int(t.D.SVal()), int(t.H.SVal()), int(t.Mi.SVal()), int(t.S.SVal()), int(t.Ns.SVal()), time.UTC)
+			return e.strConst(nt.Format(layout))
+		}
+		panic(unsupported("time.Format of a date whose year lies outside 0..9999"))
 	}
 	if t.Inst != nil {
 		return StrV{Opaque: true, Note: "format of abstract instant"}
@@ -719,6 +763,11 @@ func init() {
 			return []exit{{st: st, kind: exitPanic, pmsg: "time.Date nil location"}}
 		}
 		t := TimeV{Y: args[0].(*Term), M: args[1].(*Term), D: args[2].(*Term), H: args[3].(*Term), Mi: args[4].(*Term), S: args[5].(*Term), Ns: args[6].(*Term), UTC: e.tc.Bool(loc.Kind == 1)}
+		if xt, ok := e.extremeConstDate(t); ok {
+			// a concrete date whose year lies outside 0..9999 (outside the symbolic calendar model): its
+			// fields are normalised natively; it can be formatted and compared, nothing else
+			return retExit(st, xt)
+		}
 		valid := e.validCivil(st, t)
 		if e.feasible(st, e.tc.Not(valid), "time.Date normalisation") {
 			t = e.normaliseCivil(st, t)
@@ -1171,8 +1220,8 @@ type epochRec struct {
 // outside the zone interval found).
 
 type zoneView struct {
-	Y, M, D      *Term // anchor day
-	O1, O2, Tau  *Term
+	Y, M, D     *Term // anchor day
+	O1, O2, Tau *Term
 }
 
 func (e *Engine) prevDay(st *State, y, m, d *Term) (*Term, *Term, *Term) {
@@ -1222,7 +1271,7 @@ func (e *Engine) declareZoneAt(st *State, y, m, d *Term) {
 // 3 days + 14 h + 38 h < 2^19 seconds in absolute value (the ranges are assumptions of declareZoneAt).
 const zw = 24
 
-func (e *Engine) z24(v int64) *Term { return e.tc.BV(uint64(v)&(1<<zw-1), zw) }
+func (e *Engine) z24(v int64) *Term  { return e.tc.BV(uint64(v)&(1<<zw-1), zw) }
 func (e *Engine) lo24(x *Term) *Term { return e.tc.Extract(x, zw-1, 0) }
 
 func (e *Engine) sod24(t TimeV) *Term {
